@@ -12,7 +12,7 @@ from ..ref import model as M
 from ..ref import binary as B
 from ..runner import Check, Violation, guard, outcome, HarnessError
 
-POOL = [None, True, 5, 2**40, 1.5, "str", b"by", [1], {"k": 1}, ("int", 5), -1]
+POOL = [None, True, 5, 2**40, 1.5, "str", b"by", [1], {"k": 1}, ("int", 5), -1, 0, 1, 0.0, 1.0, False, "", b"", [], {}, "1", "true"]
 MARK = b"\x0c" * 16
 
 
@@ -125,7 +125,7 @@ class C10(Check):
     assumptions = ["float-typed leaves representable in the target width", "tuples of length != 2 at union positions are not generated"]
     required_labels = ["expected:True", "expected:False", "strict", "raise_errors", "no-tuple-notation", "rejected-by-writer", "accepted-roundtrip",
                        "mut:wrong-type", "mut:out-of-range", "mut:bool-for-int", "mut:wrong-fixed-size", "mut:unknown-symbol", "mut:non-string-key", "mut:missing-field", "mut:wrong-hint", "strict-missing-nullable", "appending-writer"]
-    quick = (2200, 1)
+    quick = (5000, 1)
     thorough = (10000, 16)
 
     def __init__(self):
@@ -142,7 +142,7 @@ class C10(Check):
             d = gen.D(draw)
             ir, table, js = gen.build_schema(d, feat)
             gen.check_truth(ir, table, js)
-            tn = not d.p(0.15)
+            tn = not d.p(0.25)
             f2 = feat if tn else gen.Features(**dict(feat.__dict__, hints=0.0, tuples_in_unions=True))
             dg = gen.DataGen(d, f2, table)
             datum = dg.gen(ir, 5)
